@@ -402,3 +402,56 @@ Proof.
   subst bs. rewrite run_concat, run_short by (auto; lia).
   rewrite app_nil_r, N.mul_0_l, !N.add_0_l. reflexivity.
 Qed.
+
+(* ================================================================== *)
+(* convert_bits = regroup_spec                                         *)
+(* ================================================================== *)
+Lemma range_ok fromBits toBits :
+  (fromBits <? 1) || (8 <? fromBits) || (toBits <? 1) || (8 <? toBits) = false ->
+  1 <= fromBits <= 8 /\ 1 <= toBits <= 8.
+Proof. lia. Qed.
+
+Lemma pad_value v r toBits :
+  v < 2 ^ r -> r <= toBits -> toBits <= 8 ->
+  u8 (N.shiftl v (toBits - r)) = v * 2 ^ (toBits - r).
+Proof.
+  intros Hv Hr Ht. unfold u8. rewrite N.shiftl_mul_pow2. apply N.mod_small.
+  assert (H2 : 2 ^ r * 2 ^ (toBits - r) = 2 ^ toBits).
+  { rewrite <- N.pow_add_r. f_equal. lia. }
+  assert (H3 : 2 ^ toBits <= 2 ^ 8) by (apply N.pow_le_mono_r; lia).
+  change (2 ^ 8) with 256 in H3.
+  pose proof (pow2_pos (toBits - r)) as Hp.
+  nia.
+Qed.
+
+Theorem convert_bits_is_spec data fromBits toBits pad :
+  Bytes data ->
+  convert_bits data fromBits toBits pad = regroup_spec data fromBits toBits pad.
+Proof.
+  intros Hb. unfold convert_bits, regroup_spec.
+  destruct ((fromBits <? 1) || (8 <? fromBits) || (toBits <? 1) || (8 <? toBits)) eqn:R;
+    [reflexivity|].
+  apply range_ok in R as [Hf Ht].
+  rewrite convert_loop_is_run by (auto; cbn; lia).
+  unfold regroup_core.
+  set (bits := flat_map (bits_of (N.to_nat fromBits)) data).
+  destruct (groups (length bits) (N.to_nat toBits) bits) as [gs tl] eqn:G.
+  rewrite (run_groups toBits bits gs tl) by (auto; lia).
+  apply groups_sound in G as (_ & _ & Htl); [|lia|lia].
+  destruct tl as [|b tl].
+  - cbn [length]. change (N.of_nat 0) with 0. change (0 <? 0) with false.
+    rewrite andb_false_r. cbn [andb]. rewrite rev_involutive. reflexivity.
+  - set (t := b :: tl) in *. set (r := N.of_nat (length t)).
+    assert (Hr : 0 < r) by (subst r t; cbn [length]; lia).
+    assert (Hr' : r < toBits) by lia.
+    replace (0 <? r) with true by lia.
+    destruct pad; cbn [andb].
+    + change (0 <? 0) with false. cbn [andb]. cbn [rev]. rewrite rev_involutive.
+      rewrite pad_value by (try lia; apply val_of_lt).
+      do 3 f_equal. subst r. lia.
+    + replace (4 <? length t)%nat with (4 <? r) by lia.
+      destruct (4 <? r); cbn [orb]; [reflexivity|].
+      destruct (N.eqb_spec (val_of t) 0) as [E|E]; cbn [negb].
+      * apply val_of_zero_iff in E. rewrite E. cbn [negb]. rewrite rev_involutive. reflexivity.
+      * destruct (forallb negb t) eqn:F; [apply val_of_zero_iff in F; contradiction|]. reflexivity.
+Qed.
